@@ -8,22 +8,22 @@ MANIFEST = {
             "token itself, after the separator; entry carries the given source position and the css text of the source "
             "token as name), C19_entries_monotone, C19_entries_within_text; by induction over the walkers for every token "
             "tree and option set: C19_transform_outputs_are_op_runs (hence the three C19_transform_* corollaries) and "
-            "C19_src_is_token_start_except_known (without comments every entry points at the start of an input token or "
-            "at the end of a list); C19_src_is_token_start_refuted: with a comment in front of a token in a "
-            "whitespace-sensitive context the entry points at the comment (D22). Each run: the map of the real crate after "
+            "C19_entries_point_into_tree (every entry points at the start of a node or the end of a list) and "
+            "C19_src_is_token_start_no_comments (... of a token, for sheets without comments); the defect D22 (entry pointing "
+            "at a preceding comment) is repaired and its witness is an Example of the correct mapping. Each run: the map of the real crate after "
             "its JSON round trip must equal the model's, and independently every entry is checked on the real output: "
             "column is a token start, order non-decreasing, tokenise(source at src)[0] corresponds to tokenise(output at "
             "dst)[0] (same token / rewrite with name = css text of the source token / closing bracket -> opening bracket "
             "/ synthesised token -> triggering construct), every non-whitespace token of the normal output has an entry.",
     "note": "Names carry cssparser's canonical spelling of the source token (e.g. `1e1rpx` is named `10rpx`), which is what "
-            "the model states and the check accepts. Known finding D22 (entry points at a preceding comment).",
+            "the model states and the check accepts. Not proved: token-start for sheets WITH comments (checked on every generated entry: an entry whose source token is a comment is a violation since D22 was repaired).",
     "technique": "Coq proof by induction over operation sequences and over token trees + exact model/implementation "
                  "comparison of maps + direct check of every entry against both texts",
 }
 
 THEOREMS = ["C19_out_col_invariant", "C19_entry_col_exact", "C19_entry_col_exact_sp", "C19_entries_monotone",
             "C19_entries_within_text", "C19_transform_outputs_are_op_runs", "C19_transform_col_invariant",
-            "C19_transform_entries_monotone", "C19_src_is_token_start_refuted", "C19_src_is_token_start_except_known"]
+            "C19_transform_entries_monotone", "C19_entries_point_into_tree", "C19_src_is_token_start_no_comments"]
 
 
 def run(res):
